@@ -416,7 +416,7 @@ def stage_corr(seed, tier, hbin, extra_cases=None, tag=""):
     base = os.path.join(CACHE, "corr")
     if os.path.isdir(base):
         olds = sorted((os.path.getmtime(os.path.join(base, x)), x) for x in os.listdir(base))
-        for _, x in olds[:-10]:
+        for _, x in olds[:-3]:
             shutil.rmtree(os.path.join(base, x), ignore_errors=True)
     os.makedirs(d, exist_ok=True)
     t0 = time.time()
